@@ -469,3 +469,92 @@ func zxC14Queryable() {
 	vrtAssert(!asOf.Add(res).Before(nowT.Add(-t.RetentionPeriod)), "no returned period ended more than one resolution before now - retention")
 	vrtReach("C14.Q")
 }
+
+type zxSeen struct {
+	key  string
+	cols []string // the bytes of every column, as delivered
+}
+
+func zxCollect(dst *[]zxSeen) func(bytemap.ByteMap, []encoding.Sequence) (bool, error) {
+	return func(key bytemap.ByteMap, vals []encoding.Sequence) (bool, error) {
+		k, _ := key.Get("k").(string)
+		s := zxSeen{key: k}
+		for _, v := range vals {
+			s.cols = append(s.cols, string(v))
+		}
+		*dst = append(*dst, s)
+		return true, nil
+	}
+}
+
+// zxContent: the delivered rows without those whose every column is empty (such a row adds
+// nothing to any aggregate and is dropped by flatten), as a comparable string.
+func zxContent(rows []zxSeen) string {
+	out := ""
+	for _, r := range rows {
+		empty := true
+		for _, c := range r.cols {
+			if len(c) > 0 {
+				empty = false
+			}
+		}
+		if empty {
+			continue
+		}
+		out += r.key + "["
+		for _, c := range r.cols {
+			out += zxItoa(len(c)) + ":" + c + ","
+		}
+		out += "]"
+	}
+	return out
+}
+
+// C17.M — doProcessIterations over the real row store (real fileStore.iterate over a file
+// written by the real flush, plus a memstore): two coalesced queries, each with its own field
+// list and its own includeMemStore flag, each receive exactly the keys and column bytes they
+// receive when the same query is processed alone on the same data (metamorphic: shared scan vs
+// solo scan; rows whose requested columns are all empty are not compared).
+//
+//zx:harness prop=C17 id=C17.M tier=quick env=fs shard=f0:6
+func zxC17RealStore() {
+	zxFSReset()
+	fields := core.Fields{core.PointsField, zxFieldA, zxFieldB}
+	t, rs := zxTable(fields)
+	// on disk: x (a only), y (b only); in memory: x (a again), z (b only), y (a only)
+	zxInsert(rs, rs.memStore, "x", zxNow, map[string]float64{"a": 1}, 0, 10)
+	zxInsert(rs, rs.memStore, "y", zxNow, map[string]float64{"b": 2}, 0, 20)
+	rs.doProcessFlush(rs.memStore, false, false)
+	zxInsert(rs, rs.memStore, "x", zxNow, map[string]float64{"a": 4}, 0, 30)
+	zxInsert(rs, rs.memStore, "z", zxNow, map[string]float64{"b": 8}, 0, 40)
+	zxInsert(rs, rs.memStore, "y", zxNow, map[string]float64{"a": 16}, 0, 50)
+	pool := []core.Fields{{zxFieldA}, {zxFieldB}, {zxFieldB, zxFieldA}, {core.PointsField}, {core.PointsField, zxFieldA, zxFieldB}, nil}
+	mk := func(i int, dst *[]zxSeen, f core.Fields, mem bool) *iteration {
+		return &iteration{t: t, ctx: context.Background(), outFields: f, includeMemStore: mem, onValue: zxCollect(dst),
+			offsetsCh: make(chan common.OffsetsBySource, 1), errCh: make(chan error, 1)}
+	}
+	f0 := pool[vrtShape("f0", len(pool))]
+	f1 := pool[vrtShape("f1", len(pool))]
+	m0 := vrtShape("mem0", 2) == 1
+	m1 := vrtShape("mem1", 2) == 1
+	var alone0, alone1, both0, both1 []zxSeen
+	it := mk(0, &alone0, f0, m0)
+	t.db.doProcessIterations([]*iteration{it})
+	vrtAssert(<-it.errCh == nil, "query 0 alone completes")
+	it = mk(1, &alone1, f1, m1)
+	t.db.doProcessIterations([]*iteration{it})
+	vrtAssert(<-it.errCh == nil, "query 1 alone completes")
+	i0, i1 := mk(0, &both0, f0, m0), mk(1, &both1, f1, m1)
+	t.db.doProcessIterations([]*iteration{i0, i1})
+	vrtAssert(<-i0.errCh == nil && <-i1.errCh == nil, "both coalesced queries complete")
+	ms := func(b bool) string {
+		if b {
+			return "with memstore"
+		}
+		return "disk only"
+	}
+	vrtAssert(zxContent(both0) == zxContent(alone0), "query 0 ("+ms(m0)+") coalesced with a "+ms(m1)+" query receives what it receives alone")
+	vrtAssert(zxContent(both1) == zxContent(alone1), "query 1 ("+ms(m1)+") coalesced with a "+ms(m0)+" query receives what it receives alone")
+	vrtAssert(len(alone0) > 0 && len(alone1) > 0, "each query alone sees rows")
+	vrtReach("C17.M")
+}
